@@ -323,6 +323,11 @@ def guard_atoms(an: Analysis, fn: FunctionInfo, target: Node, avoid=None) -> Lis
             return
         if isinstance(e, ast.Call) and isinstance(e.func, ast.Name) and e.func.id == "bool" and len(e.args) == 1:
             return add(e.args[0], truth, t, depth + 1)
+        if not truth and isinstance(e, ast.Compare) and len(e.ops) == 1 and isinstance(e.ops[0], (ast.IsNot, ast.NotEq, ast.NotIn)):
+            # `a is not b` known false  ==  `a is b` known true
+            flipped = ast.Compare(left=e.left, ops=[{ast.IsNot: ast.Is, ast.NotEq: ast.Eq, ast.NotIn: ast.In}[type(e.ops[0])]()], comparators=e.comparators)
+            ast.copy_location(flipped, e)
+            out.append((flipped, True, t))
         out.append((e, truth, t))
         if isinstance(e, ast.Name):
             fd = flag_def(e, t)
